@@ -223,7 +223,13 @@ class TrainingModel(L.LightningModule):
         )
 
         scheduler = None
-        for k, v in self.trainer_config.lr_scheduler.items():
+        # `lr_scheduler` is optional: it may be None or absent from the config.
+        lr_scheduler_config = OmegaConf.select(
+            self.trainer_config, "lr_scheduler", default=None
+        )
+        for k, v in (
+            lr_scheduler_config.items() if lr_scheduler_config is not None else []
+        ):
             if v is not None:
                 if k == "step_lr":
                     scheduler = torch.optim.lr_scheduler.StepLR(
